@@ -483,7 +483,20 @@ def read_stream_unit(mode):
             s.pc.append(s.ghost["avail"] >= prev)
             s.pc.append(s.ghost["avail"] >= st_prev(s))
             ready = s.ghost["avail"] > s.ghost["pos"]
+            # the clock: select comes back empty-handed only after the whole wait it was given has passed
+            wait = a[3] if len(a) > 3 else None
+            now2 = e.sym_real("now")
+            s.pc.append(now2 >= s.ghost["now"] + (z3.If(ready, z3.RealVal(0), to_z3(as_arith(wait))) if wait is not None else z3.RealVal(0)))
+            s.ghost["now"] = now2
+            s.ghost["idle_last"] = z3.Not(ready)
             return [((Rec("ready", {"r": 0}, valid=ready), (), ()), s)]
+
+        def monotonic(e, s, a, k):
+            s = e.fork(s)
+            t = e.sym_real("t")
+            s.pc.append(t >= s.ghost["now"])
+            s.ghost["now"] = t
+            return [(t, s)]
 
         def st_prev(s):
             return s.ghost.get("avail_floor", avail0)
@@ -498,7 +511,8 @@ def read_stream_unit(mode):
             s.ghost["avail_floor"] = av
             s.ghost["reads"] = s.ghost["reads"] + [got]
             return [(Rec("bytes", {"len": got}), s)]
-        eng.genv.update(select=Fn(select), monotonic=Fn(lambda e, s, a, k: [(e.sym_real("t"), s)]), os=Namespace("os", {"read": Fn(os_read)}))
+        eng.genv.update(select=Fn(select), monotonic=Fn(monotonic), os=Namespace("os", {"read": Fn(os_read)}))
+        st.ghost.update(now=z3.Real("now0"), idle_last=z3.BoolVal(False))
 
         def new_ba(e, s, a, k):
             s = e.fork(s)
@@ -520,6 +534,12 @@ def read_stream_unit(mode):
             parts = [pos == base + n, n >= 0, s.ghost["avail"] >= pos, s.ghost.get("avail_floor", avail0) <= s.ghost["avail"]]
             if mode != "drain":
                 parts.append(pos <= KSTAR)
+                # the time-out: the elapsed time the loop decides by is never ahead of the clock, and a turn in which select came
+                # back empty-handed (it waited for all that was left of the time-out) is the last one - "falls back within the
+                # timeout instead of blocking" on a terminal that stays silent
+                dur, start = to_z3(as_arith(s.lookup("duration"))), to_z3(as_arith(s.lookup("start")))
+                parts.append(dur <= s.ghost["now"] - start)
+                parts.append(z3.Implies(z3.And(s.ghost["idle_last"], timeout >= 0), dur >= timeout))
             return z3.And(*[to_z3(p) for p in parts])
 
         def havoc(e, s, tag):
@@ -529,6 +549,8 @@ def read_stream_unit(mode):
             s.ghost["avail_floor"] = z3.Int(f"avail_floor!{tag}")
             if "duration" in s.env:
                 s.env["duration"] = z3.Real(f"duration!{tag}")
+            s.ghost["now"] = z3.Real(f"now!{tag}")
+            s.ghost["idle_last"] = z3.Bool(f"idle_last!{tag}")
         for lid in (1, 2):
             eng.invariants[lid] = LoopSpec(inv, havoc)
         st.env.update(more=Fn(more), timeout=timeout, min=0, echo=False)
